@@ -43,7 +43,7 @@ TRUSTED_BASE = [
     "model coq/SM2/SM2Model.v, coq/SM2/DER.v written by hand from sm2/sm2.go and cryptobyte; tied by the correspondence run of this check",
     "specification coq/SM2/SM2Spec.v typed from GM/T 0003.2 over EC/SM2Curve.v (GM/T 0003.5 constants) and SM3/SM3Spec.v (GM/T 0004); validated against the standard's example by the python oracle self-test and the Annex corpus cases",
     "extraction: ExtrOcamlBasic + ExtrOcamlZBigInt (positive/N/Z -> zarith Big_int_Z; Pos/N/Z add, sub, mul, div, modulo, compare, shifts, ...); no other Extract directive; OCaml 4.13.1, zarith 1.12, dune; runner ocaml/sm2/main.ml",
-    "Go driver harness/cmd/c01 (deterministic counting reader, case catalogue, concurrent leg with yielding readers)",
+    "Go driver harness/cmd/c01 (deterministic counting reader, case catalogue, concurrent leg with yielding readers, consumer leg); hook /repo/gmtls/verif_sm2consumers_verif.go (exports verifyHandshakeSignature for the two SM2 branches)",
     "translator targets sm2 (build-ec) and sm2sig (harness/cmd/gen/target_sm2sig.go): constants read from the source into coq/Gen/SM2Params.v, SM2SigParams.v",
     "python oracle checks/sm2_oracle.py (SM3, affine EC, sign/verify per GM/T 0003.2, strict DER) for the predicate",
 ]
@@ -56,7 +56,7 @@ ASSUMPTIONS = [
 RULE = ("seeded generator (VERIF_SEED): keys {1,2,n-2,n-3, random, d/X/Y with 1-3 leading zero bytes}; message lengths {0,1,31..33,55,56,63..65,119..129,1000,4096,65535,65536}; "
         "IDs {nil, default, 1, 16, 8191, 8192, 8193 bytes}; nonce streams {random, all-zero, all-ff, k=n-1, short}; for every valid base tuple the rejection catalogue: "
         "bit flips of message/ID/r/s/X/Y, r,s in {0,n,n+r,-r,2^256,...}, r+s=n, other keys, hash variants, DER variants {non-minimal, negative, long-form, indefinite, trailing, "
-        "wrong tags, SET, three integers, empty, truncations, byte changes}; concurrent leg (op C): 2 / 8 / 32 goroutines released together, each signing 8 / 8 / 4 messages on its own yielding reader, every signature compared with the pair its own stream prescribes and all r required to be pairwise distinct. A case is non-trivial unless both message and id are empty; distinct = distinct case text")
+        "wrong tags, SET, three integers, empty, truncations, byte changes}; consumer leg (op W): the whole P catalogue again through gmtls verifyHandshakeSignature (SM2 and ECDSA-on-SM2 branches) and x509 CheckSignature; concurrent leg (op C): 2 / 8 / 32 goroutines released together, each signing 8 / 8 / 4 messages on its own yielding reader, every signature compared with the pair its own stream prescribes and all r required to be pairwise distinct. A case is non-trivial unless both message and id are empty; distinct = distinct case text")
 
 
 def nontrivial(f):
@@ -101,6 +101,11 @@ def predicate(f, io):
     if not io or io[0] in ("PANIC", "HANG"):
         return False, "implementation " + (io[0] if io else "gave no result")
     op = f[0]
+    if op == "W":
+        # consumers (gmtls verifyHandshakeSignature, x509 CheckSignature): accept iff the strict verifier accepts
+        ok, why = predicate(["P", f[1], f[3], f[4], f[5], f[6]], io)
+        names = {"s": "gmtls verifyHandshakeSignature/SM2", "e": "gmtls verifyHandshakeSignature/ECDSA-on-SM2", "x": "x509 CheckSignature"}
+        return ok, (why.replace("PublicKey.Verify", names.get(f[2], "consumer")) if why else why)
     if op in ("S", "G"):
         d = o.zint(f[2])
         pub = o.ec_mul(d, o.G)
